@@ -87,6 +87,16 @@ partial def evalLine (fn0 tag0 : String) (a : Array Int) : String :=
     else evalLine f "" a
   else if fn0 == "re_sincos_aprox" then evalLine "cos_aprox" tag0 (a.extract 1 2)
   else if fn0 == "re_cossin_aprox" then evalLine "sin_aprox" tag0 (a.extract 1 2)
+  else if fn0 == "after" then
+    -- `after[:tag] i j a b`: NAMES[i](a) then NAMES[j](b); the functions are pure, so the second call's value is the result
+    let names := #["sin","cos","tan","atan","sqrt","asin","acos","ceil","floor","sqrt_aprox","atan_index","atan_aprox","neg","abs"]
+    let tg := fun (f : String) => if f == "sqrt" || f == "asin" || f == "acos" then (if tag0 == "" then "dflt" else tag0) else ""
+    if a.size != 4 || a.getD 0 0 < 0 || a.getD 1 0 < 0 then "bad-op" else
+    match names[(a.getD 0 0).toNat]?, names[(a.getD 1 0).toNat]? with
+    | some f1, some f2 =>
+      let r1 := evalLine f1 (tg f1) (a.extract 2 3)
+      if r1.startsWith "ub" then r1 else evalLine f2 (tg f2) (a.extract 3 4)
+    | _, _ => "bad-op"
   else if fn0.startsWith "re_" then
     evalLine (fn0.drop 3).toString tag0 (a.extract (a.size / 2) a.size)
   else
